@@ -197,7 +197,7 @@ package core
 //@   ensures[C05;profile=pure] done: walked.StoppedBecause == Done ==> len(walked.Remaining) == 0 && len(walked.Strides) > 0 && walked.Strides[len(walked.Strides)-1].To == nil
 //@   ensures[C05;profile=pure] reason: walked.StoppedBecause == Done || walked.StoppedBecause == Limited || walked.StoppedBecause == BreakpointReached
 //@   ensures[C05;profile=pure] order: forall j int :: 0 <= j && j < len(walked.Strides) && walked.Strides[j].Consumed != nil ==> 0 <= kappa(j) && kappa(j) < len(pendings) && walked.Strides[j].Consumed == old(pendings[kappa(j)])
-//@   ensures[C05;profile=pure] inorder: (len(walked.Strides) > 0 ==> kappa(0) == 0) && forall j rawint :: 0 <= j && j + 1 < len(walked.Strides) ==> kappa(j + 1) == kappa(j) + (walked.Strides[j].Consumed != nil ? 1 : 0)
+//@   ensures[C05;profile=pure] inorder: (len(walked.Strides) > 0 ==> kappa(0) == 0) && forall j rawint :: 0 <= j && j + 1 < len(walked.Strides) ==> kappa(j + 1) == kappa(j) + cons(j) && cons(j) == (walked.Strides[j].Consumed != nil ? 1 : 0)
 //@   ensures[C05;profile=pure] exactrest: (walked.StoppedBecause == Limited || walked.StoppedBecause == BreakpointReached) ==>
 //@                          len(pendings) - len(walked.Remaining) == (len(walked.Strides) == 0 ? 0 : kappa(len(walked.Strides) - 1) + (walked.Strides[len(walked.Strides)-1].Consumed != nil ? 1 : 0))
 //@   ensures[C05;profile=pure] limited: walked.StoppedBecause == Limited ==> len(walked.Strides) == limitOf(c)
@@ -211,7 +211,9 @@ package core
 //@   loop 0 ghostfn kappa(i) = len(old(pendings)) - len(pendings)
 //@   loop 0 invariant[C05;profile=pure] kfirst: i == 0 ==> len(pendings) == len(old(pendings))
 //@   loop 0 invariant[C05;profile=pure] klast: i > 0 ==> len(old(pendings)) - len(pendings) == kappa(i - 1) + (walked.Strides[i-1].Consumed != nil ? 1 : 0)
-//@   loop 0 invariant[C05;profile=pure] kstep: forall j rawint :: 0 <= j && j + 1 < i ==> kappa(j + 1) == kappa(j) + (walked.Strides[j].Consumed != nil ? 1 : 0)
+//@   loop 0 ghostfn cons(i - 1) = (i > 0 && walked.Strides[i-1].Consumed != nil) ? 1 : 0
+//@   loop 0 invariant[C05;profile=pure] kstep: forall j rawint :: 0 <= j && j + 1 < i ==> kappa(j + 1) == kappa(j) + cons(j)
+//@   loop 0 invariant[C05;profile=pure] clink: forall j rawint :: 0 <= j && j + 1 < i ==> cons(j) == (walked.Strides[j].Consumed != nil ? 1 : 0)
 //@   loop 0 invariant[C05;profile=pure] kzero: i > 0 ==> kappa(0) == 0
 //@   loop 0 invariant[C05;profile=pure] krange: forall j int :: 0 <= j && j < i && walked.Strides[j].Consumed != nil ==> 0 <= kappa(j) && kappa(j) < len(old(pendings))
 //@   loop 0 ghostfn hd(i) = len(pendings) > 0 ? 1 : 0
